@@ -12,10 +12,26 @@ func vpHumaner() *Humaner {
 	return &Binary
 }
 
+// The specification's own prefix tables (powers of 1000 for counts, of 1024 for
+// bytes) - deliberately not read from the implementation's Humaner.
+var vpSpecNames = [2][]string{{"", "k", "M", "G", "T", "P"}, {"", "Ki", "Mi", "Gi", "Ti", "Pi"}}
+var vpSpecMult = [2][]uint64{
+	{1, 1e3, 1e6, 1e9, 1e12, 1e15},
+	{1, 1 << 10, 1 << 20, 1 << 30, 1 << 40, 1 << 50},
+}
+
+// vpSystem tells which of the two exported Humaners h is (by its name, "metric" or "binary").
+func vpSystem(h *Humaner) int {
+	if h.Name() == "binary" {
+		return 1
+	}
+	return 0
+}
+
 // vpClass locates the prefix the real code chose from the unit string.
 func vpClass(h *Humaner, unitString string) int {
-	for i, p := range h.prefixes {
-		if p.Name+"B" == unitString {
+	for i, name := range vpSpecNames[vpSystem(h)] {
+		if name+"B" == unitString {
 			return i
 		}
 	}
@@ -31,14 +47,14 @@ func VPH_human() {
 	if j < 0 {
 		return
 	}
-	M := h.prefixes[j].Multiplier
+	M := vpSpecMult[vpSystem(h)][j]
 	zn, zM := vp_ZU(n), vp_ZU(M)
 	// (2) the prefix is the largest one not exceeding the value
 	if j > 0 {
 		vp_Assert(vp_ZLe(zM, zn), "prefix multiplier <= value")
 	}
-	if j+1 < len(h.prefixes) {
-		vp_Assert(vp_ZLt(zn, vp_ZU(h.prefixes[j+1].Multiplier)), "no larger prefix fits")
+	if j+1 < len(vpSpecMult[vpSystem(h)]) {
+		vp_Assert(vp_ZLt(zn, vp_ZU(vpSpecMult[vpSystem(h)][j+1])), "no larger prefix fits")
 	}
 	N := vp_TokDecimals(numeral)
 	d := vp_TokScaled(numeral) // numeral denotes d / 10^N
@@ -65,8 +81,8 @@ func VPH_human() {
 	case 2, 1:
 		vp_Assert(vp_ZLe(d, vp_ZU(1000)), "numeral within its precision class")
 	case 0:
-		if j+1 < len(h.prefixes) {
-			vp_Assert(vp_ZLe(vp_ZMul(d, zM), vp_ZU(h.prefixes[j+1].Multiplier)), "numeral does not exceed the next prefix")
+		if j+1 < len(vpSpecMult[vpSystem(h)]) {
+			vp_Assert(vp_ZLe(vp_ZMul(d, zM), vp_ZU(vpSpecMult[vpSystem(h)][j+1])), "numeral does not exceed the next prefix")
 		}
 	default:
 		vp_Fail("0, 1 or 2 decimals")
@@ -96,7 +112,6 @@ func VPH_humanMonotone() {
 	vp_Assert(vp_ZLe(vp_TokScaled(num1), vp_TokScaled(num2)), "n1 < n2 => numeral(n1) <= numeral(n2) within a class")
 	vp_Reach("same-class")
 }
-
 
 // VPH_formatOverflow (C05): a saturated counter is rendered as the infinity
 // sign, anything else as a numeral.
@@ -199,13 +214,13 @@ func VPH_humanSequence() {
 	if j < 0 {
 		return
 	}
-	M := h.prefixes[j].Multiplier
+	M := vpSpecMult[vpSystem(&h)][j]
 	zn, zM := vp_ZU(n), vp_ZU(M)
 	if j > 0 {
 		vp_Assert(vp_ZLe(zM, zn), "prefix multiplier <= value (after an earlier rendering)")
 	}
-	if j+1 < len(h.prefixes) {
-		vp_Assert(vp_ZLt(zn, vp_ZU(h.prefixes[j+1].Multiplier)), "no larger prefix fits (after an earlier rendering)")
+	if j+1 < len(vpSpecMult[vpSystem(&h)]) {
+		vp_Assert(vp_ZLt(zn, vp_ZU(vpSpecMult[vpSystem(&h)][j+1])), "no larger prefix fits (after an earlier rendering)")
 	}
 	N := vp_TokDecimals(numeral)
 	d := vp_TokScaled(numeral)
